@@ -130,6 +130,50 @@ Theorem c05_float_of_negative : forall p,
   f64_of_Z (Zneg p) = (2 ^ 63 + f64_of_Z (Zpos p))%N /\ f32_of_Z (Zneg p) = (2 ^ 31 + f32_of_Z (Zpos p))%N.
 Proof. intros p. split; [apply encode64_neg|apply encode32_neg]. Qed.
 
+(** f64 -> f32 for a finite normal f64 (fraction field mf < 2^52, biased exponent 897 <= ef <= 2046,
+    i.e. the f32 result is normal or overflows): the result is q * 2^(ef - 1023 - 23) with
+    q = round_even (2^52 + mf) 29 - the nearest f32, ties to even - with the carry into the
+    exponent, and infinity beyond the largest finite f32. (Results in the f32 subnormal range,
+    NaNs and infinities: bit-exact comparison only.) *)
+Theorem c05_f32_of_f64_normal : forall mf ef : N,
+  (mf < 2 ^ 52)%N -> (897 <= ef)%N -> (ef <= 2046)%N ->
+  let q := round_even (mf + 2 ^ 52) 29 in
+  let b := encode 24 8 false (mf + 2 ^ 52) (Z.of_N ef - 1075) in
+  (2 ^ 23 <= q <= 2 ^ 24)%N
+  /\ ((q < 2 ^ 24)%N -> (ef <= 1150)%N -> f32_sign b = 0%N /\ f32_exp b = (ef - 896)%N /\ (2 ^ 23 + f32_frac b = q)%N)
+  /\ (q = (2 ^ 24)%N -> (ef < 1150)%N -> f32_sign b = 0%N /\ f32_exp b = (ef - 895)%N /\ f32_frac b = 0%N)
+  /\ ((1150 < ef)%N \/ (q = (2 ^ 24)%N /\ ef = 1150%N) -> b = (255 * 2 ^ 23)%N).
+Proof. exact f32_of_f64_normal. Qed.
+
+(** and [f32_of_f64] really calls it so on such inputs (positive sign; the sign bit is added as for
+    integers) *)
+Theorem c05_f32_of_f64_unfold : forall b : N,
+  N.testbit b 63 = false ->
+  let ef := N.land (N.shiftr b 52) 2047 in
+  let mf := N.land b 4503599627370495 in
+  ef <> 2047%N -> ef <> 0%N ->
+  f32_of_f64 b = encode 24 8 false (mf + 4503599627370496) (Z.of_N ef - 1075).
+Proof.
+  intros b Hs ef mf H1 H2. unfold f32_of_f64. rewrite Hs. fold ef. fold mf.
+  replace (ef =? 2047)%N with false by (symmetry; apply N.eqb_neq; exact H1).
+  replace (ef =? 0)%N with false by (symmetry; apply N.eqb_neq; exact H2). reflexivity.
+Qed.
+
+Check c05_f32_of_f64_normal : forall mf ef : N,
+  (mf < 2 ^ 52)%N -> (897 <= ef)%N -> (ef <= 2046)%N ->
+  let q := round_even (mf + 2 ^ 52) 29 in
+  let b := encode 24 8 false (mf + 2 ^ 52) (Z.of_N ef - 1075) in
+  (2 ^ 23 <= q <= 2 ^ 24)%N
+  /\ ((q < 2 ^ 24)%N -> (ef <= 1150)%N -> f32_sign b = 0%N /\ f32_exp b = (ef - 896)%N /\ (2 ^ 23 + f32_frac b = q)%N)
+  /\ (q = (2 ^ 24)%N -> (ef < 1150)%N -> f32_sign b = 0%N /\ f32_exp b = (ef - 895)%N /\ f32_frac b = 0%N)
+  /\ ((1150 < ef)%N \/ (q = (2 ^ 24)%N /\ ef = 1150%N) -> b = (255 * 2 ^ 23)%N).
+Check c05_f32_of_f64_unfold : forall b : N,
+  N.testbit b 63 = false ->
+  let ef := N.land (N.shiftr b 52) 2047 in
+  let mf := N.land b 4503599627370495 in
+  ef <> 2047%N -> ef <> 0%N ->
+  f32_of_f64 b = encode 24 8 false (mf + 4503599627370496) (Z.of_N ef - 1075).
+
 (* non-vacuity: 2^60 + 2^36 + 1 is just above an f32 rounding midpoint: it must round UP (a detour
    through f64 would round it down - the seeded defect C05b) *)
 Example c05_f32_midpoint : f32_of_Z 1152921573326323713 = 1568669697%N.
@@ -202,3 +246,5 @@ Print Assumptions c05_f64_of_int_rounded.
 Print Assumptions c05_f32_of_int_exact.
 Print Assumptions c05_f32_of_int_rounded.
 Print Assumptions c05_float_of_negative.
+Print Assumptions c05_f32_of_f64_normal.
+Print Assumptions c05_f32_of_f64_unfold.
